@@ -103,6 +103,18 @@ func FormatInput(seed uint64) []byte {
 	}
 	prog := GenProg(SubSeed(seed, "prog", 0))
 	text := prog.Render()
+	if r.Chance(1, 25) {
+		// a large input (tens of kilobytes): several programs back to back;
+		// the formatter does not mind duplicate names, buffers and pipes do
+		// mind sizes
+		var b strings.Builder
+		b.WriteString(text)
+		n := 8 + r.Intn(25)
+		for k := 1; k <= n && b.Len() < 90000; k++ {
+			b.WriteString(GenProg(SubSeed(seed, "prog", k)).Render())
+		}
+		text = b.String()
+	}
 	if r.Chance(1, 6) {
 		// constructs the compiler rejects but the formatter accepts
 		text += "\npacket " + r.Pick(words) + "Extra {\n    Unknown" + r.Pick(words) + " ref,\n    @leftPad('0')\n    char[3] padded,\n}\n"
